@@ -341,7 +341,11 @@ def run(ctx):
     ctx.floor("C02.TRANSPOSE", 4)
     from . import c16
     c16.rule_uncg(ctx, ctx.py, "C02.UNCG")
+    # shared clause: GetNeighborIndex itself (directions, periodic wrap, range test) -- the symmetric neighbour relation
+    from ..core import borrow
+    from . import c15
+    borrow(ctx, "C02", c15.rule_cx, ctx.cx)
     from .. import lints
-    lints.run(ctx, "C02", ctx.py, ["coarsegrain", "kinetics"])
+    lints.run(ctx, "C02", ctx.py, ["coarsegrain", "kinetics", "librdengine"])
     ctx.assume("floating-point exactness of the Euler sums is not decided; opposed_direction is an involution pairing "
                "opposite moves (C15.DISP); the stoichiometric matrix layout is C01.LAYOUT / C19.MATRIX")
